@@ -158,6 +158,12 @@ def w6_declaration(p, name, how="class"):
         return "\n".join(["@utype.parse", f"def {name}(z: int = 0, *rest: {p['b_ann']}) -> {p['bs_ann']}:", f"    return {empty}", ""])
     if how == "cls_addition":
         return "\n".join([f"class {name}(Schema):", f"    __options__ = Options(addition={p['bs_ann']})", "    z: int = 0", ""])
+    if how == "other_union":
+        # another module with a class B of its own: the library's operator builds `cond | <the same spelling>` in the class
+        # body, outside any parser (the reference object is the one A's first parse is evaluating)
+        return "\n".join(["from utype import Schema, Field, Options", "from utype.types import PositiveInt", "from typing import List, Dict, Optional, Tuple, Union", "",
+                          "class B(Schema):", "    w: int = 0", "",
+                          f"class {name}(Schema):", f"    v: PositiveInt | {p['bs_ann']} = 1", ""])
     return "\n".join([
         f"class {name}(Schema):",
         "    z: int = 0",
@@ -212,6 +218,13 @@ def run_op(mod, op, params):
         return mod.use(op["u"])
     if k == "declare":
         how = op.get("how", "class")
+        if how == "other_union":
+            om = kernel.make_module("verif_c20_o_" + op["name"], w6_declaration(params, op["name"], how))
+            cls = getattr(om, op["name"])
+            if op.get("use") is None:
+                return ["declared"]
+            v = _bs_value(params, [{"w": "3"}])
+            return dict(cls(v=tuple(v) if params["bs_ann"].startswith("Tuple") else v))
         kernel.exec_into(mod, w6_declaration(params, op["name"], how))
         cls = getattr(mod, op["name"])
         if op.get("use") is None:
@@ -345,7 +358,7 @@ def generate(rng, tier):
         if sc == "W6":
             # one thread declares (and maybe uses) new classes while the others make their first parses
             t = rng.randrange(nthreads)
-            plan["threads"][t] = [{"op": "declare", "name": "N%d_%d" % (t, i), "how": rng.choice(["class", "class", "fn_kwargs", "cls_addition", "fn_return", "fn_return"]),
+            plan["threads"][t] = [{"op": "declare", "name": "N%d_%d" % (t, i), "how": rng.choice(["class", "class", "fn_kwargs", "cls_addition", "fn_return", "fn_return", "other_union", "other_union"]),
                                    "use": rng.choice([None, {"z": 1, "b": {"y": 1}}, {"bs": [{"y": 2}]}])}
                                   for i in range(max(1, counts[t]))]
     elif sc == "W2":
